@@ -1,6 +1,7 @@
 # edited by hand as checks land
 _T = "Every listed obligation is decided by z3 over all integer values of its symbolic inputs within the stated skeleton bound (a bounded, not an unbounded, claim); "
 CLAIMED = {
+ "C19": ("DESIGN.md#c19", _T + "two-finger / skip-ahead / leader-follower counts from real intersect traces equal an independent merge, fiber-by-fiber and one-shot; numSwaps equals the stated per-round cost for symbolic latency and is independent of payload values."),
  "C16": ("DESIGN.md#c16", _T + "headers, stamp order, one row per access, coordinates and fiber positions of iter/intersect/populate/project traces against accesses observed by the harness and an independent two-finger merge; file content equals in-memory rows for every flush threshold."),
  "C15": ("DESIGN.md#c15", _T + "kernel outputs identical with collection on and off; multiply/add/update counts and iter-trace row counts equal what the loop bodies executed; a fresh session after an earlier one equals a cold run (counts and consumable traces)."),
  "C06": ("DESIGN.md#c06", _T + "output content of dot, matrix-vector, matrix-matrix, elementwise and reduction kernels equals the dense result for every implemented loop order, tiling and intersection style, one operand symbolic (all sparsity patterns)."),
